@@ -261,6 +261,14 @@ func (fx *FuncExec) evalSpec(env *SpecEnv, e ast.Expr) Val {
 func (fx *FuncExec) specType(env *SpecEnv, e ast.Expr) types.Type {
 	switch x := e.(type) {
 	case *ast.Ident:
+		// a type parameter of the (instantiated generic) function under contract: its type argument
+		if tps, tas := fx.fn.TypeParams(), fx.fn.TypeArgs(); tps != nil && tps.Len() == len(tas) {
+			for i := 0; i < tps.Len(); i++ {
+				if tps.At(i).Obj().Name() == x.Name {
+					return tas[i]
+				}
+			}
+		}
 		if obj := types.Universe.Lookup(x.Name); obj != nil {
 			if tn, ok := obj.(*types.TypeName); ok {
 				return tn.Type()
@@ -880,6 +888,9 @@ func (fx *FuncExec) evalSpecCall(env *SpecEnv, x *ast.CallExpr) Val {
 	case "unbox":
 		v := fx.evalSpec(env, x.Args[0])
 		t := fx.specType(env, x.Args[1])
+		if _, isI := t.Underlying().(*types.Interface); isI {
+			return Val{T: t, Sort: SIface, S: v.S} // "unboxing" to an interface type keeps the interface value
+		}
 		s := fx.em.SortOf(t)
 		return Val{T: t, Sort: s, S: fx.em.Unbox("(i.val "+v.S+")", s)}
 	case "ret":
